@@ -353,7 +353,7 @@ Section CliSpec.
     mc_enc : wc_encrypt cfg = true ->
        len (wc_key cfg) = 32 /\ len (wc_nonce cfg) = 8 /\
        (forall i c, len (tagf (wc_key cfg) (wc_nonce cfg) i c) = TAG) /\
-       nfull CHUNK (len (mid_of BLOCK cfg (w_out sf))) + 2 < 2 ^ 32 /\
+       (nfull CHUNK (len (mid_of BLOCK cfg (w_out sf))) + 2 < 2 ^ 32 /\ CHUNK + TAG <= 2 ^ 31) /\
        dh s (pubk (wc_eph cfg)) = dh (wc_eph cfg) (pubk s) /\
        In (pubk s) (wc_recipients cfg) /\ In s privs;
     mc_nokey : wc_encrypt cfg = false -> privs = [];
